@@ -257,6 +257,17 @@ Lemma guard_implies_in_bounds_simplifier_init N samples :
   0 <= N -> simplifier_init_samples N samples <> OOB.
 Proof. intro H. apply mark_ids_strict_not_OOB. apply zlen_alloc. exact H. Qed.
 
+Lemma guard_implies_in_bounds_simplify_entry md N samples :
+  0 <= N -> simplify_entry md N samples <> OOB.
+Proof. intro H. unfold simplify_entry. destruct md; [discriminate|]. apply guard_implies_in_bounds_simplifier_init. exact H. Qed.
+
+Lemma guard_implies_in_bounds_link_ancestors_entry_repaired md N samples ancestors :
+  0 <= N -> link_ancestors_entry true true md N samples ancestors <> OOB.
+Proof.
+  intro H. unfold link_ancestors_entry. destruct md; [discriminate|].
+  destruct (_ || _); [discriminate|]. apply guard_implies_in_bounds_link_ancestors_repaired. exact H.
+Qed.
+
 Lemma variant_index_map_not_OOB imp N flags samples : forall j map,
   zlen flags = N -> zlen map = N -> variant_index_map imp N flags j map samples <> OOB.
 Proof.
@@ -422,6 +433,13 @@ Qed.
 Lemma guard_implies_in_bounds_subset N col nodes :
   0 <= N -> zlen col = N -> table_collection_subset N col nodes <> OOB.
 Proof. intros H L. apply subset_nodes_not_OOB; [assumption | apply zlen_alloc; assumption]. Qed.
+
+Lemma guard_implies_in_bounds_subset_entry mig N col nodes :
+  0 <= N -> zlen col = N -> subset_entry mig N col nodes <> OOB.
+Proof.
+  intros H L. unfold subset_entry. apply bind_not_OOB; [apply guard_implies_in_bounds_subset; assumption|].
+  intros; destruct mig; discriminate.
+Qed.
 
 Lemma union_check_map_not_OOB sn scol mapping : forall n k,
   zlen scol = sn -> 0 <= k -> k + Z.of_nat n <= zlen mapping ->
